@@ -135,6 +135,10 @@ def cases(tier, seed, prop):
             k = rnd.randrange(len(WRAP_TPL))
             text = lines if (WRAP_TPL[k][1] or rnd.random() < .6) else '\n'.join(lines)
             out.append({'wrap': k, 'c': {'text': text, 'options': {'output.format': rnd.random() < .5}}, 'g': 'wrap'})
+        # numbering and tabstops inside text, also inside balanced inner braces (`{{ ${1:name} }}`, `{a{$}b}`)
+        for _ in range(n // 6):
+            w, want = gen_wnum(rnd, rnd.randint(1, 8), 0)
+            out.append({'w': w, 'want': want, 'tpl': rnd.choice([0, 3]), 'c': rnd.choice([{}, {'options': {'output.format': False}}, {'syntax': 'jsx'}, {'syntax': 'vue'}]), 'g': 'text-num'})
         for c in out:
             c['s'] = TEXT_TPL[c['tpl']] % c['w'] if 'w' in c else WRAP_TPL[c['wrap']][0]
         return out
@@ -180,7 +184,7 @@ def cases(tier, seed, prop):
         n = 3000 if tier == 'quick' else 40000
         names = ['div', 'p', 'span', 'ul', 'li', 'em', 'b', 'hr', 'br', 'strong', 'section', 'x', 'table', 'tr', 'td', 'article', 'body', 'i', 'h1', 'nav']
         o12 = dict(base_opt('C04'), names=names, p_attr=.3, p_text=.35, p_noname=.1, p_void_child=.25,
-                   attr_pool=[('attr', 'title', 'v', 'raw'), ('attr', 'data-x', 'a b', 'dq'), ('attr', 'lang', None, None), ('attr', 'rel', 'e', 'expr')] if prop == 'C12' else [('attr', 'title', 'v', 'raw'), ('attr', 'data-x', 'a b', 'dq'), ('attr', 'd', 'M0', 'raw'), ('attr', 'as', 'font', 'raw'), ('attr', 'a', '1', 'raw'), ('attr', 's', 'z', 'dq')],
+                   attr_pool=[('attr', 'title', 'v', 'raw'), ('attr', 'data-x', 'a b', 'dq'), ('attr', 'lang', None, None), ('attr', 'rel', 'e', 'expr')] if prop == 'C12' else [('attr', 'title', 'v', 'raw'), ('attr', 'data-x', 'a b', 'dq'), ('attr', 'd', 'M0', 'raw'), ('attr', 'as', 'font', 'raw'), ('attr', 'a', '1', 'raw'), ('attr', 's', 'z', 'dq'), ('attr', 'rel', 'e', 'expr'), ('attr', 'on', 'f(x)', 'expr')],
                    text_pool=['txt', 'a b', 'l1\nl2', 'one\ntwo\nthree', 'x', ' sp '] if prop == 'C12' else ['txt', 'a b', 'l1\nl2', 'one\ntwo\nthree', 'x', 'first\rsecond', 'a\x0bb', 'p\r\nq'])
         for _ in range(n):
             seq = mk.gen_seq(rnd, o12, [rnd.randint(1, 8)], 2)
@@ -380,6 +384,29 @@ def gen_w(rnd, n):
     return out
 
 
+def gen_wnum(rnd, n, depth):
+    """(payload, expected content): plain characters, escapes, balanced inner braces, `$` runs (numbering: 1 outside any repeater, zero
+    padded to the run's width), `${n}` / `${n:placeholder}` tabstops (the placeholder is the content)"""
+    w = ''; want = ''
+    pool = list('ab .,:;=+>^()[]*#!-') + ['é']
+    while n > 0:
+        k = rnd.random()
+        if k < .45: ch = rnd.choice(pool); w += ch; want += ch; n -= 1
+        elif k < .55: ch = rnd.choice('{}$\\a'); w += '\\' + ch; want += ch; n -= 1
+        elif k < .7:
+            r = rnd.choice([1, 1, 2, 3]); w += '$' * r; want += '1'.zfill(r); n -= 1
+            ch = rnd.choice('z z.')                              # never directly followed by `$`, `{`, `#` or `@` (those would change the token)
+            w += ch; want += ch
+        elif k < .82:
+            i = rnd.randint(0, 3); ph = rnd.choice(['', '', 'name', 'x y'])
+            w += '${%d%s}' % (i, ':' + ph if ph else ''); want += ph; n -= 1
+        elif depth < 2:
+            m = rnd.randint(0, max(0, n - 1)); iw, iwant = gen_wnum(rnd, m, depth + 1)
+            w += '{' + iw + '}'; want += '{' + iwant + '}'; n -= m + 1
+        else: n -= 1
+    return w, want
+
+
 def wellformed(w):
     """ordinary characters, `\\c`, balanced `{...}`; must not end the text early or leave a dangling escape"""
     depth = 0; i = 0
@@ -415,9 +442,10 @@ def first_text_after(outp, tag):
 
 def oracle_C04_text(case, o):
     if o[0] != 'ok': return ['no-output| expand(%r) -> %s %s' % (case['s'], o[0], o[1])]
-    want = decode(case['w'])
+    want = case['want'] if 'want' in case else decode(case['w'])
     tag = ['x', 'x', 'li', 'b', 'x', 'x', 'br', 'x'][case['tpl']]
     got = first_text_after(o[1], tag)
+    if got is not None and 'want' in case: got = mk.strip_fields(got)
     if got is None: return ['text| expand(%r): no <%s> in %r' % (case['s'], tag, o[1])]
     ok = got == want or (got.startswith(want) and not got[len(want):].strip()) or (not want.strip() and not got.strip())
     if not ok: return ['text| expand(%r): <%s> contains %r, the written text is %r' % (case['s'], tag, got, want)]
@@ -566,6 +594,11 @@ def cases_C14(tier, rnd):
                 c = {'syntax': sy}
                 if rev: c['options'] = {'output.reverseAttributes': True}
                 out.append({'s': k, 'alt': v, 'c': c, 'g': 'builtin'})
+                if '${' in v and not rev:
+                    # a definition that mentions variables, under a call config that overrides only some of them: the alias sees the
+                    # same merged variables as the definition typed in its place
+                    for vs in ({'charset': 'koi8-r'}, {'lang': 'ru'}, {'foo': 'bar'}, {}):
+                        out.append({'s': k, 'alt': v, 'c': dict(c, variables=vs), 'g': 'builtin-vars'})
                 if sy == 'html' or k not in markup_snippets:
                     if SIMPLE_DEF.match(v) and not rev:
                         for sfx in ('.c', '[x=y]', '#i.c[x=y]', '{t}'):
@@ -588,8 +621,10 @@ def cases_C14(tier, rnd):
                 out.append({'s': k + sfx, 'alt': '+'.join(t + sfx for t in tops), 'c': c, 'g': 'multiroot'})
         out.append({'s': k + '>u', 'alt': v + '>u', 'c': c, 'g': 'deepest-last'})
         out.append({'s': 'w>' + k + '>u+v', 'alt': 'w>(' + v + '>u+v)', 'c': c, 'g': 'deepest-last'})
-    for k, v in [('ri:a', None), ('!', None), ('doc', None)]:
-        pass
+    # a definition with text of its own: text written on the alias replaces it on every top-level element
+    withtext = {'note': 'p.note{default text}', 'two2': 'h1{Title}+p', 'lbl': 'label{L}+input'}
+    for k, alt in [('note{hello}', 'p.note{hello}'), ('two2{x}', 'h1{x}+p{x}'), ('note', 'p.note{default text}'), ('lbl{y}*2', '(label{y}+input{y})*2'), ('div>note{a b}', 'div>p.note{a b}')]:
+        out.append({'s': k, 'alt': alt, 'c': {'snippets': dict(withtext)}, 'g': 'alias-text'})
     # user tables, including self-referencing and mutually recursive ones: resolution must end
     names = ['s1', 's2', 's3', 's4', 's5', 'x', 'y']
     n = 300 if tier == 'quick' else 3000
@@ -733,7 +768,7 @@ def lines_of(forest, sy, depth, acc):
         ids = [m[1] for m in el['mentions'] if m[0] == 'id']; cls = [m[1] for m in el['mentions'] if m[0] == 'class']
         attrs = []
         for m in el['mentions']:
-            if m[0] == 'attr' and m[1] not in [a[0] for a in attrs]: attrs.append((m[1], m[2]))
+            if m[0] == 'attr' and m[1] not in [a[0] for a in attrs]: attrs.append((m[1], m[2], m[3]))
         name = el['name']
         if not name:      # text-only node: its text on a line of its own
             acc.append((depth, ('| ' if sy in ('pug', 'slim') else '') + el['text'])); continue
@@ -743,7 +778,7 @@ def lines_of(forest, sy, depth, acc):
             if m[0] == 'id' and 'id' not in done: head += '#' + ids[-1]; done.add('id')
             elif m[0] == 'class' and 'class' not in done: head += ''.join('.' + c for c in cls); done.add('class')
         if attrs:
-            parts = ['%s="%s"' % (n, v) for n, v in attrs]
+            parts = ['%s={%s}' % (n, v) if k == 'expr' else '%s="%s"' % (n, v) for n, v, k in attrs]     # an expression keeps its braces
             if sy == 'haml': head += '(' + ' '.join(parts) + ')'
             elif sy == 'pug': head += '(' + ', '.join(parts) + ')'
             else: head += ' ' + ' '.join(parts)
